@@ -22,7 +22,8 @@ CONSTANTS Keep,         \* -k given
 \* the calls of one operand, in order; "work" stands for all the reads and writes of work()
 Steps == IF Damaged THEN <<"open_in", "cli", "open_out", "work", "unlink_out">>
          ELSE <<"open_in", "cli", "open_out", "work", "fchown", "fchmod", "futimens", "close_out", "unlink_in", "sti", "close_in", "exit">>
-Faults == {"none", "fail", "sigint", "sigterm", "kill"}
+\* "failsig": a write that fails with EPIPE / EFBIG, for which the kernel also generates SIGPIPE / SIGXFSZ
+Faults == {"none", "fail", "failsig", "sigint", "sigterm", "kill"}
 
 VARIABLES pc,        \* index into Steps of the call about to be made
           inp, out,  \* abstract file system
@@ -35,7 +36,7 @@ vars == <<pc, inp, out, blocked, pending, warned, result, plan>>
 
 Init == /\ pc = 1 /\ inp = "present" /\ out = "absent" /\ blocked = FALSE /\ pending = FALSE /\ warned = FALSE
         /\ result = "running"
-        /\ plan \in [at : 1..Len(Steps), fault : Faults]
+        /\ plan \in {p \in [at : 1..Len(Steps), fault : Faults] : p.fault = "failsig" => Steps[p.at] = "work"}
 
 Fault == IF plan.at = pc THEN plan.fault ELSE "none"
 Die(r) == result' = r /\ UNCHANGED <<pc, inp, blocked, pending, warned, plan>>
@@ -68,6 +69,11 @@ Step ==
               IF sigp THEN \/ result' = "signal" /\ out' = "absent" /\ UNCHANGED <<pc, inp, blocked, pending, warned, plan>>
                            \/ Go(pc + 1) /\ pending' = FALSE /\ UNCHANGED <<inp, out, blocked, warned, result>>
               ELSE IF f = "fail" THEN Fatal
+              \* the failing thread forwards its SIGPIPE / SIGXFSZ to the process, where it stays blocked until the main
+              \* thread, woken by SIGUSR1, has run cleanup() and unblocks it: death by that signal, output removed
+              ELSE IF f = "failsig" THEN \/ result' = "sigfail" /\ out' = "absent" /\ UNCHANGED <<pc, inp, blocked, pending, warned, plan>>
+                                         \* (with a damaged input the data error may be reported first)
+                                         \/ Damaged /\ Go(pc + 1) /\ UNCHANGED <<inp, out, blocked, pending, warned, result>>
               \* damaged input: a worker reports the data error and raises SIGUSR1; the main thread runs bailout()
               ELSE IF Damaged THEN Go(pc + 1) /\ UNCHANGED <<inp, out, blocked, pending, warned, result>>
               ELSE Go(pc + 1) /\ UNCHANGED <<inp, out, blocked, pending, warned, result>>
@@ -102,7 +108,7 @@ CannotRemove == Damaged /\ Steps[plan.at] = "unlink_out" /\ plan.fault = "fail"
 Dichotomy == (Terminal /\ result # "killed") => (StateA \/ StateB \/ (CannotRemove /\ inp = "present" /\ result = "exit1"))
 \* success is never reported with the operand in state A, nor failure with the input gone and no output
 StatusHonest == /\ (result \in {"exit0", "exit4"} /\ plan.at > 1 /\ ~(plan.at = 3 /\ plan.fault = "fail")) => StateB
-                /\ (result = "exit1" /\ ~(plan.at = 11) /\ ~CannotRemove) => StateA
+                /\ (result \in {"exit1", "sigfail"} /\ ~(plan.at = 11) /\ ~CannotRemove) => StateA
                 \* a damaged input never ends in success (unless the operand was skipped before it was read)
                 /\ (Damaged /\ ~(plan.fault = "fail" /\ plan.at \in {1, 3})) => result \notin {"exit0", "exit4"}
 \* after SIGKILL at any moment the input is intact unless a complete output exists
